@@ -11,7 +11,7 @@ PID = "C20"
 LEVEL = "exploration"
 RULE = (
     "Hypothesis draws weight-vector specs (length 1..10^4; families uniform, U(0,1), exp N(0,sigma<=200) clipped to 300 decades, "
-    "70% zeros, ties, explicit short float lists), scale factors 10^U(-100,100), ess fractions in (0,1), bins in {2,10,100,1000}, "
+    "70% zeros, ties, explicit short float lists), scale factors 10^U(-100,100), ess fractions in (0,1), bins in {1,2,3,10,100,1000}, "
     "sample clouds (d 1..5, n>=5d, base condition <=10) and affine maps of condition 10^U(0,6), scale 10^U(-3,3), translations. "
     "Non-trivial: ess check = >=2 distinct positive weights; trim = trimming removed >=1 sample; volume = cond(A)>=1e3. distinct = case hash."
 )
@@ -115,7 +115,7 @@ def exec_ess(case):
 @st.composite
 def trim_cases(draw):
     return {"w": draw(wspec(max_n=3000)), "ess": draw(st.one_of(st.floats(1e-3, 1 - 1e-6), st.sampled_from([0.5, 0.9, 0.99, 0.999]))),
-            "bins": draw(st.sampled_from([2, 10, 100, 1000])), "d": draw(st.integers(0, 3))}
+            "bins": draw(st.sampled_from([1, 2, 3, 10, 100, 1000])), "d": draw(st.integers(0, 3))}
 
 
 def exec_trim(case):
